@@ -242,6 +242,15 @@ fn build(pp: &PipePlan, cfg_in: Cfg, cfg_out: Cfg, cfg_err: Cfg) -> Pipeline {
         }
         return cfg_err(cfg_in(a)) | cfg_out(b);
     }
+    if matches!(pp.shape, Shape::Chain | Shape::New) && n >= 3 && pp.early {
+        // settings made on a pipeline survive its being extended by further commands
+        let p0 = if pp.shape == Shape::New { Pipeline::new(mk(0), mk(1)) } else { mk(0) | mk(1) };
+        let mut p = cfg_err(cfg_out(cfg_in(p0)));
+        for i in 2..n {
+            p = p | mk(i);
+        }
+        return p;
+    }
     let late = move |p: Pipeline| cfg_err(cfg_out(cfg_in(p)));
     late(match pp.shape {
         // `early` doubles as "lazy": an iterator that cannot tell its length in advance (what
